@@ -1,12 +1,12 @@
 SPECIFICATION FairSpec
 CONSTANTS
   Keys = {1, 2}
-  MaxChanges = 3
-  MaxFails = 2
+  MaxChanges = 2
+  MaxFails = 1
   MaxOther = 1
   MaxRefresh = 1
-  RoundSize = 1
-  Batch = FALSE
+  RoundSize = 2
+  Batch = TRUE
   MinB = 1
   MaxB = 2
   Variant = "fixed"
